@@ -141,6 +141,18 @@ impl SemanticState {
             )?,
         );
 
+        for block in &module.impls {
+            let is_type_of_module = module.definitions.iter().any(|d| {
+                d.name == block.name && matches!(d.inner, grammar::ItemDefinitionInner::Type(_))
+            });
+            if !is_type_of_module {
+                anyhow::bail!(
+                    "`impl {}` in module `{path}` does not belong to a type defined in that module",
+                    block.name
+                );
+            }
+        }
+
         for definition in &module.definitions {
             let new_path = path.join(definition.name.as_str().into());
             if self.type_registry.get(&new_path).is_some() {
